@@ -491,7 +491,16 @@ func (s *Server) handlePostTx(w http.ResponseWriter, r *http.Request) {
 		return
 	}
 
-	// TODO(fwd): Ensure halt lock is held by caller.
+	// Only the holder of the database's halt lock may forward transactions.
+	// Without it nothing keeps local writers out while the file is applied.
+	if lockID, err := strconv.ParseInt(q.Get("lockID"), 10, 64); err != nil {
+		Error(w, r, fmt.Errorf("invalid lock id: %q", q.Get("lockID")), http.StatusBadRequest)
+		return
+	} else if !db.HasHaltLock(lockID) {
+		Error(w, r, fmt.Errorf("cannot commit: halt lock not held: %d", lockID), http.StatusConflict)
+		return
+	}
+
 	// TODO(fwd): Prevent halt lock release during copy & apply.
 
 	// Wrap request body in a chunked reader.
